@@ -1,1 +1,219 @@
-//! A minimal `VMBinding` for monitors that need a `VM` type parameter but no running GC.
+//! Minimal `VMBinding`s for monitors that need a `VM` type parameter but no running GC.
+//!
+//! `define_unit_vm!` generates a binding type whose ObjectModel metadata placement is given by
+//! the macro arguments; every VM callback that a GC would need is `unimplemented!()`.
+//! Object sizes are looked up in a harness-side table (`set_size`), so objects can be as small
+//! as two words and object memory is never read by `get_current_size`.
+#![allow(dead_code)]
+
+use mmtk::util::{Address, ObjectReference};
+use std::collections::HashMap;
+use std::sync::RwLock;
+
+static SIZES: RwLock<Option<HashMap<usize, usize>>> = RwLock::new(None);
+
+/// Declare the size of the object whose reference is `obj`.
+pub fn set_size(obj: Address, size: usize) {
+    let mut g = SIZES.write().unwrap();
+    g.get_or_insert_with(HashMap::new).insert(obj.as_usize(), size);
+}
+
+pub fn clear_sizes() {
+    *SIZES.write().unwrap() = None;
+}
+
+pub fn size_of(obj: ObjectReference) -> usize {
+    let g = SIZES.read().unwrap();
+    *g.as_ref()
+        .and_then(|m| m.get(&obj.to_raw_address().as_usize()))
+        .unwrap_or_else(|| panic!("unitvm: size of {} not declared", obj))
+}
+
+pub fn objref(a: Address) -> ObjectReference {
+    ObjectReference::from_raw_address(a).unwrap()
+}
+
+#[macro_export]
+macro_rules! define_unit_vm {
+    ($name:ident, log: $log:expr, fwd_ptr: $fp:expr, fwd_bits: $fb:expr, mark: $mark:expr,
+     pin: $pin:expr, los: $los:expr) => {
+        #[derive(Default)]
+        pub struct $name;
+
+        impl mmtk::vm::VMBinding for $name {
+            type VMObjectModel = $name;
+            type VMScanning = $name;
+            type VMCollection = $name;
+            type VMActivePlan = $name;
+            type VMReferenceGlue = $name;
+            type VMSlot = mmtk::vm::slot::SimpleSlot;
+            type VMMemorySlice = mmtk::vm::slot::UnimplementedMemorySlice;
+            const MAX_ALIGNMENT: usize = 1 << 6;
+        }
+
+        impl mmtk::vm::ObjectModel<$name> for $name {
+            const GLOBAL_LOG_BIT_SPEC: mmtk::vm::VMGlobalLogBitSpec = $log;
+            const LOCAL_FORWARDING_POINTER_SPEC: mmtk::vm::VMLocalForwardingPointerSpec = $fp;
+            const LOCAL_FORWARDING_BITS_SPEC: mmtk::vm::VMLocalForwardingBitsSpec = $fb;
+            const LOCAL_MARK_BIT_SPEC: mmtk::vm::VMLocalMarkBitSpec = $mark;
+            const LOCAL_PINNING_BIT_SPEC: mmtk::vm::VMLocalPinningBitSpec = $pin;
+            const LOCAL_LOS_MARK_NURSERY_SPEC: mmtk::vm::VMLocalLOSMarkNurserySpec = $los;
+            const OBJECT_REF_OFFSET_LOWER_BOUND: isize = 0;
+
+            fn copy(
+                _from: mmtk::util::ObjectReference,
+                _semantics: mmtk::util::copy::CopySemantics,
+                _copy_context: &mut mmtk::util::copy::GCWorkerCopyContext<$name>,
+            ) -> mmtk::util::ObjectReference {
+                unimplemented!()
+            }
+            fn copy_to(
+                _from: mmtk::util::ObjectReference,
+                _to: mmtk::util::ObjectReference,
+                _region: mmtk::util::Address,
+            ) -> mmtk::util::Address {
+                unimplemented!()
+            }
+            fn get_current_size(object: mmtk::util::ObjectReference) -> usize {
+                $crate::unitvm::size_of(object)
+            }
+            fn get_size_when_copied(object: mmtk::util::ObjectReference) -> usize {
+                $crate::unitvm::size_of(object)
+            }
+            fn get_align_when_copied(_object: mmtk::util::ObjectReference) -> usize {
+                8
+            }
+            fn get_align_offset_when_copied(_object: mmtk::util::ObjectReference) -> usize {
+                0
+            }
+            fn get_reference_when_copied_to(
+                _from: mmtk::util::ObjectReference,
+                to: mmtk::util::Address,
+            ) -> mmtk::util::ObjectReference {
+                mmtk::util::ObjectReference::from_raw_address(to).unwrap()
+            }
+            fn get_type_descriptor(_reference: mmtk::util::ObjectReference) -> &'static [i8] {
+                unimplemented!()
+            }
+            fn ref_to_object_start(object: mmtk::util::ObjectReference) -> mmtk::util::Address {
+                object.to_raw_address()
+            }
+            fn ref_to_header(object: mmtk::util::ObjectReference) -> mmtk::util::Address {
+                object.to_raw_address()
+            }
+            fn dump_object(_object: mmtk::util::ObjectReference) {}
+        }
+
+        impl mmtk::vm::Scanning<$name> for $name {
+            fn scan_object<SV: mmtk::vm::SlotVisitor<mmtk::vm::slot::SimpleSlot>>(
+                _tls: mmtk::util::VMWorkerThread,
+                _object: mmtk::util::ObjectReference,
+                _slot_visitor: &mut SV,
+            ) {
+                unimplemented!()
+            }
+            fn notify_initial_thread_scan_complete(_partial_scan: bool, _tls: mmtk::util::VMWorkerThread) {
+                unimplemented!()
+            }
+            fn scan_roots_in_mutator_thread(
+                _tls: mmtk::util::VMWorkerThread,
+                _mutator: &'static mut mmtk::Mutator<$name>,
+                _factory: impl mmtk::vm::RootsWorkFactory<mmtk::vm::slot::SimpleSlot>,
+            ) {
+                unimplemented!()
+            }
+            fn scan_vm_specific_roots(
+                _tls: mmtk::util::VMWorkerThread,
+                _factory: impl mmtk::vm::RootsWorkFactory<mmtk::vm::slot::SimpleSlot>,
+            ) {
+                unimplemented!()
+            }
+            fn supports_return_barrier() -> bool {
+                false
+            }
+            fn prepare_for_roots_re_scanning() {
+                unimplemented!()
+            }
+        }
+
+        impl mmtk::vm::Collection<$name> for $name {
+            fn stop_all_mutators<F>(_tls: mmtk::util::VMWorkerThread, _mutator_visitor: F)
+            where
+                F: FnMut(&'static mut mmtk::Mutator<$name>),
+            {
+                unimplemented!()
+            }
+            fn resume_mutators(_tls: mmtk::util::VMWorkerThread) {
+                unimplemented!()
+            }
+            fn block_for_gc(_tls: mmtk::util::VMMutatorThread) {
+                unimplemented!()
+            }
+            fn spawn_gc_thread(_tls: mmtk::util::VMThread, _ctx: mmtk::vm::GCThreadContext<$name>) {
+                unimplemented!()
+            }
+        }
+
+        impl mmtk::vm::ActivePlan<$name> for $name {
+            fn number_of_mutators() -> usize {
+                0
+            }
+            fn is_mutator(_tls: mmtk::util::VMThread) -> bool {
+                false
+            }
+            fn mutator(_tls: mmtk::util::VMMutatorThread) -> &'static mut mmtk::Mutator<$name> {
+                unimplemented!()
+            }
+            fn mutators<'a>() -> Box<dyn Iterator<Item = &'a mut mmtk::Mutator<$name>> + 'a> {
+                Box::new(std::iter::empty())
+            }
+        }
+
+        impl mmtk::vm::ReferenceGlue<$name> for $name {
+            type FinalizableType = mmtk::util::ObjectReference;
+            fn clear_referent(_new_reference: mmtk::util::ObjectReference) {
+                unimplemented!()
+            }
+            fn get_referent(_object: mmtk::util::ObjectReference) -> Option<mmtk::util::ObjectReference> {
+                unimplemented!()
+            }
+            fn set_referent(_reff: mmtk::util::ObjectReference, _referent: mmtk::util::ObjectReference) {
+                unimplemented!()
+            }
+            fn enqueue_references(_references: &[mmtk::util::ObjectReference], _tls: mmtk::util::VMWorkerThread) {
+                unimplemented!()
+            }
+        }
+    };
+}
+
+// The default unit VM: every piece of per-object metadata on the side.
+define_unit_vm!(
+    SideVM,
+    log: mmtk::vm::VMGlobalLogBitSpec::side_first(),
+    fwd_ptr: mmtk::vm::VMLocalForwardingPointerSpec::side_first(),
+    fwd_bits: mmtk::vm::VMLocalForwardingBitsSpec::side_after(
+        <SideVM as mmtk::vm::ObjectModel<SideVM>>::LOCAL_FORWARDING_POINTER_SPEC.as_spec()
+    ),
+    mark: mmtk::vm::VMLocalMarkBitSpec::side_after(
+        <SideVM as mmtk::vm::ObjectModel<SideVM>>::LOCAL_FORWARDING_BITS_SPEC.as_spec()
+    ),
+    pin: mmtk::vm::VMLocalPinningBitSpec::side_after(
+        <SideVM as mmtk::vm::ObjectModel<SideVM>>::LOCAL_MARK_BIT_SPEC.as_spec()
+    ),
+    los: mmtk::vm::VMLocalLOSMarkNurserySpec::side_after(
+        <SideVM as mmtk::vm::ObjectModel<SideVM>>::LOCAL_PINNING_BIT_SPEC.as_spec()
+    )
+);
+
+// A header-metadata unit VM: forwarding bits inside the forwarding pointer word, mark/pin/log/LOS
+// bits share the second header byte.
+define_unit_vm!(
+    HeaderVM,
+    log: mmtk::vm::VMGlobalLogBitSpec::in_header(8),
+    fwd_ptr: mmtk::vm::VMLocalForwardingPointerSpec::in_header(64),
+    fwd_bits: mmtk::vm::VMLocalForwardingBitsSpec::in_header(64),
+    mark: mmtk::vm::VMLocalMarkBitSpec::in_header(9),
+    pin: mmtk::vm::VMLocalPinningBitSpec::in_header(10),
+    los: mmtk::vm::VMLocalLOSMarkNurserySpec::in_header(12)
+);
